@@ -135,6 +135,10 @@ func (w *world) runtimeTxs() []txT {
 		return r
 	}
 	other := common.NewTestNamespaceFromSeed([]byte("verif runtime 1"), common.NamespaceTest)
+	rtNode := func(d *node.Node) *node.Node {
+		d.Runtimes = []*node.Runtime{{ID: rid}}
+		return d
+	}
 	ts := []txT{
 		{Name: "submitmsg(a0,fee1,tokens2)", Signer: k.Accounts[0], Method: roothash.MethodSubmitMsg, Body: roothash.SubmitMsg{ID: rid, Tag: 7, Fee: qq(1), Tokens: qq(2), Data: []byte("m")}, FeeAmt: 1},
 		{Name: "submitmsg(a1,fee3,tokens0)", Signer: k.Accounts[1], Method: roothash.MethodSubmitMsg, Body: roothash.SubmitMsg{ID: rid, Fee: qq(3)}},
@@ -155,6 +159,12 @@ func (w *world) runtimeTxs() []txT {
 			r.GovernanceModel = registry.GovernanceRuntime
 		})},
 		{Name: "runtime-new(a0 no entity)", Signer: k.Accounts[0], Method: registry.MethodRegisterRuntime, Body: rt(func(r *registry.Runtime) { r.ID = other; r.EntityID = k.Accounts[0].Public() })},
+		nodeTx("node0-renew+compute(exp13)", rtNode(k.NodeDescriptor(0, 0, 13, node.RoleValidator|node.RoleComputeWorker)), k.NodeSigners(0), k.Nodes[0].NodeSigner),
+		nodeTx("node3-new validator+compute for e1", rtNode(k.NodeDescriptor(3, 1, 13, node.RoleValidator|node.RoleComputeWorker)), k.NodeSigners(3), k.Nodes[3].NodeSigner),
+		nodeTx("node3-new compute for e1", rtNode(k.NodeDescriptor(3, 1, 13, node.RoleComputeWorker)), k.NodeSigners(3), k.Nodes[3].NodeSigner),
+		nodeTx("node3-new observer+runtime for e1", rtNode(k.NodeDescriptor(3, 1, 13, node.RoleObserver)), k.NodeSigners(3), k.Nodes[3].NodeSigner),
+		nodeTx("node3-new compute for e0 (not listed)", rtNode(k.NodeDescriptor(3, 0, 13, node.RoleComputeWorker)), k.NodeSigners(3), k.Nodes[3].NodeSigner),
+		nodeTx("node2-renew compute without runtimes", k.NodeDescriptor(2, 2, 13, node.RoleValidator|node.RoleComputeWorker), k.NodeSigners(2), k.Nodes[2].NodeSigner),
 		{Name: "executor-commit(n0,empty)", Signer: k.Nodes[0].NodeSigner, Method: roothash.MethodExecutorCommit, Body: roothash.ExecutorCommit{ID: rid}},
 		{Name: "roothash-evidence(a0,empty)", Signer: k.Accounts[0], Method: roothash.MethodEvidence, Body: roothash.Evidence{ID: rid}},
 	}
